@@ -169,7 +169,7 @@ def states_x_types(ctx, corr, thorough):
                         problems.append("resumption flag changed")
                     if problems:
                         ctx.witness(f"{st}: message type {t} not permitted by TLS 1.3 here but " + "; ".join(problems),
-                                    {"state": st, "type": t, "message": msg.hex()},
+                                    {"kind": "state-type", "state": st, "type": t, "message": msg.hex()},
                                     {"oracle": "unexpected-type", "state": st, "type": t})
                 elif v == "genuine" and o.exc is not None:
                     ctx.witness(f"{st}: genuine next message of type {t} refused: {o.exc!r}", {"case": desc},
@@ -257,11 +257,13 @@ def adversarial_flights(ctx, corr, thorough, r):
             ctx.count(("flight", vname, tuple(seq)), True)
             if done and not legal:
                 ctx.witness(f"client ({vname}) completed the handshake on the illegal server flight {seq}",
-                            {"variant": vname, "flight": seq[:done_at], "messages": [m.hex() for m in msgs]},
+                            {"kind": "genuine", "variant": vname, "flight": seq[:done_at],
+                             "messages": [m.hex() for m in msgs]},
                             {"oracle": "illegal-flight-completes", "variant": vname, "flight": seq[:done_at]})
             if legal and not done:
                 ctx.witness(f"client ({vname}) refused the legal flight {seq}: {raised!r}",
-                            {"variant": vname, "flight": seq}, {"oracle": "legal-flight-refused", "variant": vname})
+                            {"kind": "genuine", "variant": vname, "flight": seq},
+                            {"oracle": "legal-flight-refused", "variant": vname})
             if done and not resumed and not any(k == CV for k in seq[:done_at]):
                 ctx.witness("client finished without CertificateVerify and without PSK", {"flight": seq},
                             {"oracle": "finished-without-cv"})
@@ -287,7 +289,7 @@ def adversarial_flights(ctx, corr, thorough, r):
     ctx.notes["flights"] = {"sequences": total, "completed": completed}
 
 
-def quic_level_flights(ctx, thorough, r):
+def quic_level_flights(ctx, thorough, r, only=None):
     """the same adversary seen by a real client QuicConnection: a real server
     QuicConnection whose TLS engine's handshake flight is replaced (harness-side
     wrap of Context.handle_message) by a reordered / shortened flight re-signed and
@@ -301,6 +303,8 @@ def quic_level_flights(ctx, thorough, r):
         legal = [s for s in seqs if s in LEGAL[False]]
         others = [s for s in seqs if s not in LEGAL[False]]
         seqs = legal + r.sample(others, 36)
+    if only is not None:
+        seqs = [list(only)]
     orig = tls.Context.handle_message
     plan = {}
 
@@ -342,7 +346,7 @@ def quic_level_flights(ctx, thorough, r):
             if completed and not legal:
                 done_illegal += 1
                 ctx.witness(f"client QuicConnection reported HandshakeCompleted on the illegal server flight {seq}",
-                            {"flight": seq, "messages": [m.hex() for m in plan.get("msgs", [])]},
+                            {"kind": "quic-flight", "flight": seq, "messages": [m.hex() for m in plan.get("msgs", [])]},
                             {"oracle": "illegal-flight-completes", "level": "quic", "flight": seq})
             if legal and not completed:
                 ctx.witness(f"client QuicConnection did not complete on the legal flight {seq}: "
@@ -412,3 +416,50 @@ def main(tier):
     )
     ctx.sample({"op": corr.desc[:1]})
     return ctx.finish()
+
+
+def replay(path):
+    """re-execute the recorded flight / message of a replay file against the current tree"""
+    import json
+    d = json.load(open(path))
+    if d.get("kind") != "impl-witness":
+        print("the replay names a broken obligation / tie, nothing to execute:", json.dumps(d.get("broken", []))[:600])
+        return 1
+    tree.activate()
+    from harness import tlsrogue, tlsdrive as D, tlsscen as S
+    rep = d.get("replay", {})
+    kind = rep.get("kind")
+    ctx = core.Ctx("replay", "quick")
+    if kind in ("rogue", "genuine"):
+        ws = tlsrogue.replay(rep)
+        if d.get("signature", {}).get("oracle") == "legal-flight-refused" and not _completes(rep):
+            ws = [{"what": d["what"]}]
+    elif kind == "quic-flight":
+        D.tap_extract()
+        quic_level_flights(ctx, False, rng.make("replay"), only=rep["flight"])
+        ws = ctx.witnesses
+    elif kind == "state-type":
+        from aioquic import tls
+        D.tap_extract()
+        c, kt, _ = S.drive(rep["state"])
+        st0, k0 = c.state, len(kt.calls)
+        exc, _ = D.feed(c, bytes.fromhex(rep["message"]))
+        bad = not isinstance(exc, tls.AlertUnexpectedMessage) or c.state != st0 or len(kt.calls) != k0
+        ws = [{"what": f"{rep['state']}: type {rep['type']} -> {exc!r}, state {c.state.name}"}] if bad else []
+    else:
+        print("this witness is not re-executable on its own; re-run ./check C11 with VERIF_SEED set to the seed in the file name")
+        return 2
+    for w in ws:
+        print("still failing:", w["what"][:400])
+    if not ws:
+        print("no longer failing")
+    return 1 if ws else 0
+
+
+def _completes(rep):
+    from aioquic import tls
+    from harness import tlsrogue, core as _core
+    c = _core.Ctx("replay", "quick")
+    v = {"cert-rsa": "certificate", "cert-ec256": "certificate-ec256"}.get(rep["variant"], rep["variant"])
+    tlsrogue.genuine_dfs(c, label="replay", only=(v, rep["flight"]))
+    return c.notes["replay"]["completed"] == 1
